@@ -118,12 +118,12 @@ func (i *interpreter) step(fr *frame) {
 }
 
 func (i *interpreter) enterFunc(fn *ssa.Function) {
-	i.lastFn = fn.String()
+	i.lastFn = fnString(fn)
 	if i.path == nil {
 		return
 	}
 	if pkg := fn.Package(); pkg != nil && pkg == i.P.Sod && !strings.HasPrefix(fn.Name(), "VH_") && !strings.HasPrefix(fn.Name(), "vh") {
-		name := fn.String()
+		name := fnString(fn)
 		if _, ok := i.path.funcs[name]; !ok {
 			n := 0
 			for _, b := range fn.Blocks {
